@@ -30,6 +30,12 @@ var fsFuncs = map[string]bool{
 	"ReadFile": true, "Open": true, "Mkdir": true, "MkdirAll": true, "RemoveAll": true,
 }
 
+// in package hotline (file transfers) only the calls that do not hand out an *os.File are rewritten - the ones that
+// publish, remove or create a name: they become scheduling points (and journal steps when a recorder watches the path)
+var fsFuncsHotline = map[string]bool{
+	"WriteFile": true, "Rename": true, "Remove": true, "Mkdir": true, "MkdirAll": true, "RemoveAll": true,
+}
+
 func main() {
 	if len(os.Args) != 2 {
 		fmt.Fprintln(os.Stderr, "usage: simify <root>")
@@ -279,7 +285,7 @@ func rewriteFile(path, pkg string) error {
 			sel.X = ast.NewIdent("simrt")
 			rw.usedRT = true
 		}
-		if rw.pkg == "internal/mobius" && rw.osName != "" && id.Name == rw.osName && fsFuncs[sel.Sel.Name] {
+		if rw.osName != "" && id.Name == rw.osName && (rw.pkg == "internal/mobius" && fsFuncs[sel.Sel.Name] || rw.pkg == "hotline" && fsFuncsHotline[sel.Sel.Name]) {
 			sel.X = ast.NewIdent("simfs")
 			rw.usedFS = true
 		}
